@@ -54,15 +54,20 @@ def fold(t, val):
     ok = True
     for op, l, r in zip(a[0], vals, vals[1:]):
       ok = ok and {
-          '==': l == r, '!=': l != r, '<': l < r, '<=': l <= r, '>': l > r, '>=': l >= r,
-          'is': l is r, 'is not': l is not r,
-      }[op]
+          '==': lambda: l == r, '!=': lambda: l != r, '<': lambda: l < r, '<=': lambda: l <= r, '>': lambda: l > r,
+          '>=': lambda: l >= r, 'is': lambda: l is r, 'is not': lambda: l is not r,
+      }[op]()
       if not ok:
         break
     return ok
   if k == 'bool':
-    vals = [fold(x, val) for x in a[1]]
-    return all(vals) if a[0] == 'and' else any(vals)
+    for x in a[1]:  # short-circuit like python
+      v = fold(x, val)
+      if a[0] == 'and' and not v:
+        return v
+      if a[0] == 'or' and v:
+        return v
+    return v
   if k in ('set', 'tuple', 'list'):
     vals = [fold(x, val) for x in a]
     return {'set': set, 'tuple': tuple, 'list': list}[k](vals)
